@@ -447,6 +447,21 @@ def r4_guards(r, facts):
                 continue
             loc, t = sl[0]
             ok = False
+            # the running remainder of the limit, whatever it is called: initialised from self.limit, decreased per buffer
+            RL = counter_local(g, lambda e: fam.last_field(e) == 'limit' or any(fam.last_field(x) == 'limit' for x in subexprs(e)), eg)
+
+            def _is_left(e, RL=RL):
+                while e[0] == 'cast':
+                    e = e[4]
+                return e[0] == 'local' and RL is not None and e[1] == RL
+            # `match left.checked_sub(len) { Some(rest) => .., None => set_len(left) }`: the None edge implies len > left
+            for si in g.enum_switches('std::option::Option'):
+                ce = eg.local(si['place']['l']) if not si['place']['p'] else None
+                if ce is not None and ce[0] == 'call' and ce[1].endswith('checked_sub') and _is_left(ce[2][0]) \
+                        and any(x[0] == 'call' and x[1].endswith('::len') for x in subexprs(ce[2][1])):
+                    ne = g.variant_edge(si, 'None')
+                    if ne is not None and g.edge_dominates(ne, loc):
+                        ok = True
             for (b, tgt) in c10.controlling_switches(g, loc):
                 e = eg.operand(g.term(b)['discr'])
                 if e[0] == 'bin' and e[1] in ('Le', 'Gt', 'Lt', 'Ge'):
@@ -475,7 +490,7 @@ def r4_guards(r, facts):
                 # the running remainder starts at self.limit
                 left0 = None
                 for l2, s2 in g.assigns():
-                    if not s2['lhs']['p'] and g.local_name(s2['lhs']['l']) == 'left':
+                    if not s2['lhs']['p'] and RL is not None and s2['lhs']['l'] == RL:
                         if left0 is None or g.dominates(l2, left0[0]):
                             left0 = (l2, ExprBuilder(g, multi='leaf').rvalue(s2['rv']))
                 if r.require(left0 is not None, 'LimitedBuf::%s/left' % meth, 'remaining-limit counter not found', g.where()):
